@@ -7,6 +7,7 @@ remove / every peer at once / library shutdown); after each stage the resource l
 computes from the recorded mechanism-level events; the property ORACLE is evaluated on the implementation directly
 (rows released, descriptors closed exactly once, counters back to baseline, no internal_error, restart works)."""
 import concurrent.futures as cf
+import os
 import hashlib
 import json
 import re
@@ -22,7 +23,7 @@ KLASS = [
 
 def strip_ledger(s):
     s = re.sub(r"~ke\d+", "", s)
-    s = re.sub(r"~ks-?\d+,ke-?\d+", "", s)
+    s = re.sub(r"~ks-?\d+,ke-?\d+(,qu\d+,qd\d+)?", "", s)
     # a disconnected PeerInfo without transfers may be culled by the hourly tick: same as no entry
     s = re.sub(r"pi=-:0(?=[ \]])", "pi=none", s)
     return s
@@ -54,6 +55,8 @@ def oracle(case, iline):
     """Property C16 on ONE implementation output line -> list of (klass, text)."""
     if iline.startswith("CRASH"):
         return [(None, "sanitizer report / abort during teardown: " + iline[:300])]
+    if iline.startswith("ERR:hang"):
+        return [("hang", "the case did not finish within the 30 s watchdog")]
     if iline.startswith("ERR:internal"):
         return [(None, "internal_error raised by a teardown path: " + iline[:300])]
     if iline.startswith("ERR:") or iline.startswith("BADCASE") or iline == "MISSING":
@@ -79,7 +82,28 @@ def get_layouts(impl):
     return {s: G.parse_layout(l) for s, l in zip(G.SCENARIOS, res)}
 
 
+def probe_params(rep):
+    """ROBUSTNESS.md rule 3: the constants of the theorems are read from the compiled code before the Coq build."""
+    from gen import params_c16 as PP
+    try:
+        impl = ltv.build_harness("c16", ["c16.cc", "common/session.cc"])
+        res, err, rc = ltv.run_lines(impl, ["sc=hin params=1"], timeout=120)
+        kv = dict(t.split("=", 1) for t in res[0].split())
+        vals = {k: int(v) for k, v in kv.items()}
+        os.makedirs(os.path.dirname(PP.probe_file()), exist_ok=True)
+        with open(PP.probe_file(), "w") as f:
+            json.dump(vals, f)
+        return vals
+    except Exception as e:   # the harness does not build / run: reported below by the normal path; regex fallback is used
+        try:
+            os.unlink(PP.probe_file())
+        except OSError:
+            pass
+        return {"probe_failed": str(e)[-200:]}
+
+
 def run(rep, tier, seed, replay):
+    probed = probe_params(rep)
     coq = ltv.coq_build("C16")
     rep.cov.update(obligations=coq["obligations"], discharged=coq["discharged"], checker_cmd=coq["checker_cmd"],
                    theorems=coq["theorems"], axioms_per_theorem=coq["axioms"],
@@ -166,6 +190,7 @@ def run(rep, tier, seed, replay):
             theorem="coq/C16/Properties.v", found_input=False)
     stats = dict(stats)
     stats["distinct_pre_fault_row_shapes"] = len(pre_kinds)
+    stats["params_probed_from_compiled_code"] = probed
     rep.cov.update(evaluations=len(cases) + len(shutdown), distinct_nontrivial=len(nontrivial),
                    traces_validated_against_impl=len(cases) - mism,
                    rule="cases = corpus + for each of 11 scripted sessions (incoming / outgoing plain handshake, seeding with requests in "
@@ -180,5 +205,5 @@ def run(rep, tier, seed, replay):
                    exhaustive=(tier == "thorough"),
                    explanation="exhaustive (thorough tier) means every byte offset of the 11 fixed scripts, not every session")
     rep.assumptions += ["plain (unencrypted) handshakes", "pieces of 1 block (2048 bytes) or 2 blocks (32 KiB)", "choke slots available",
-                        "throttles unlimited", "a single active torrent per session",
+                        "throttles unlimited except in the two rate-limited sessions (1000 B/s global limit, no tick inside the session)", "a single active torrent per session",
                         "the correspondence between model and code is established by enumeration of the listed faults only"]
